@@ -33,6 +33,10 @@ CHECKS = {
                 text="For the generated 2-molecule mol2 and 2-frame xyz texts: every truncation offset, every single line deletion/duplication and every single token corruption (integer +-1, numeric -> 'x', token dropped) leads to an exception or to molecules that have exactly the atom/bond counts of their own header and the content of the corresponding undamaged molecule; the readers terminate (line budget). Exhaustive over single damages of these two texts.",
                 note="Selector-bound (the solver enumerates positions; a symbolic offset into concrete text is realised by CrossHair). Cuts inside the last numeric token of the file are undetectable for any reader and only checked for counts. Multiple simultaneous damages and other files are outside the bound.",
                 design="3/C10"),
+    "C11": dict(engine="SR", technique="symbolic-real execution of the real rotation / geometry functions on numpy object arrays of z3 Real terms; per-component QF_NRA queries (z3 nlsat) in hard-killed workers; numeric replay of models",
+                text="For ALL real inputs within the stated non-degeneracy assumptions: rotation_matrix_from_axis is a proper rotation about its axis by its angle (orthogonality, det, axis fixed, trace); rotation_matrix_from_vectors (generic branch) is proper and maps v1n to v2n; the antiparallel branch takes one loop pass and returns the product of two recursive results that chain v1 -> aux -> v2; translate / transform / Substructure edits / ensemble translate, rotate, center_at_atom, center_at_core keep all pairwise distances and the signed volume and move exactly the selected atoms; rotate_dihedral leaves the dihedral at the target, the fixed side unchanged and the moved side rigid. Every query answered unsat; negative controls sat.",
+                note="Reals, not floats: rounding and the 1e-12 neighbourhood of antiparallel vectors are outside. Antiparallel lemma (e) and Kabsch alignment (scipy/rmsd) are NOT claimed. sqrt/reciprocal/sin/cos are exact fresh-variable encodings; recursive calls and the RNG are contract stubs.",
+                design="3/C11"),
     "C14": dict(engine="XH+SHP", technique="CrossHair symbolic execution of the real ConformerEnsemble/Conformer code on a shape-level numpy model with symbolic extents (n_conformers up to 1000), plus real-numpy content scenarios; z3 decides each path",
                 text="One inductive step from an arbitrary rectangular state: for every constructor branch, each of 17 operations, all n_conformers in [0,1000] (symbolic, linear integer arithmetic over array extents), n_atoms 0..3 and every conformer index, the three parallel arrays keep matching extents and every conformer view reads coordinates and charges. On real numpy (extents <= 3): writes through a conformer change row i only, iteration (nested, interleaved, suspended) visits each conformer once in order, grown ensembles dump and serialise.",
                 note="The shape model (engine/shapenp.py) is validated against numpy on ~10k concrete shape cases per run; array *content* is only checked at concrete small extents; a symbolic conformer index bypasses __getitem__'s match statement (CrossHair artefact) and constructs the Conformer directly.",
